@@ -21,10 +21,11 @@ const (
 	Nil                // nil pointer/interface/map/slice/func
 	NonNil             // definitely not nil
 	Unknown            // anything
+	Zero               // the integer 0 (only as an assumed fact, e.g. for a len(..) value)
 )
 
 func (a Abs) String() string {
-	return [...]string{"bottom", "true", "false", "nil", "nonnil", "unknown"}[a]
+	return [...]string{"bottom", "true", "false", "nil", "nonnil", "unknown", "zero"}[a]
 }
 
 func meet(a, b Abs) Abs {
@@ -379,6 +380,9 @@ func (r *Reach) eval(v ssa.Value) Abs {
 func (r *Reach) evalInt(v ssa.Value, depth int) (int64, bool) {
 	if depth > 6 {
 		return 0, false
+	}
+	if a, ok := r.facts[v]; ok && a == Zero {
+		return 0, true
 	}
 	switch x := v.(type) {
 	case *ssa.Const:
